@@ -181,8 +181,42 @@ def gen_state(rng, w, h, density=None, label="random"):
     return S
 
 
-def plant_extras(rng, S, n_cores=2, n_diags=1):
-    """Per-core status blocks, console buffer chains and router counters for a few cores / chips."""
+# Console text: Unicode scalar values by the number of bytes their UTF-8 form takes (both ends of every range, a few
+# everyday characters, the byte-order mark, the neighbours of the surrogate gap) - and any other one of that width.
+TEXT_POOLS = {
+    1: [ord(ch) for ch in "abcdefghij XYZ\n\t0123456789%[]"] + [0x0d, 0x7f, 0x01],
+    2: [0x80, 0xa0, 0xb0, 0xb5, 0xc2, 0xc3, 0xe9, 0xf1, 0xff, 0x100, 0x3b1, 0x416, 0x7ff],
+    3: [0x800, 0x20ac, 0x2014, 0x2603, 0x4e2d, 0xd7ff, 0xe000, 0xfeff, 0xfffd, 0xffff],
+    4: [0x10000, 0x1f600, 0x1f4a9, 0x2000b, 0xe0001, 0x10ffff],
+}
+TEXT_RANGES = {1: [(0x01, 0x7f)], 2: [(0x80, 0x7ff)], 3: [(0x800, 0xd7ff), (0xe000, 0xffff)], 4: [(0x10000, 0x10ffff)]}
+TEXT_STYLES = {"mixed": [1, 2, 3, 4], "accents": [1, 1, 1, 1, 1, 2, 2, 3], "wide": [3, 3, 4], "astral": [4],
+               "two": [2], "emoji": [1, 1, 1, 4]}
+
+
+def gen_text(rng, nbytes, style=None):
+    """Console text (a list of Unicode scalar values) whose UTF-8 form is exactly nbytes long."""
+    widths = TEXT_STYLES[style or rng.choice(sorted(TEXT_STYLES))]
+    cps, left = [], nbytes
+    if left >= 3 and rng.random() < 0.15:      # a text may begin with the byte-order mark like any other character
+        cps.append(0xfeff)
+        left -= 3
+    while left:
+        wd = rng.choice([k for k in widths if k <= left] or [k for k in (1, 2, 3, 4) if k <= left])
+        if rng.random() < 0.6:
+            cps.append(rng.choice(TEXT_POOLS[wd]))
+        else:
+            cps.append(rng.randint(*rng.choice(TEXT_RANGES[wd])))
+        left -= wd
+    return cps
+
+
+def plant_extras(rng, S, n_cores=2, n_diags=1, text=None):
+    """Per-core status blocks, console buffer chains and router counters for a few cores / chips.
+
+    The contents of a console are of one of three kinds: "ascii" text, "utf8" text (characters of one to four
+    bytes, cut into blocks without regard to character boundaries) and "binary" (any bytes; read back as bytes only).
+    text: None, or a dict(nblk=, style=) that makes every planted console a full chain of UTF-8 text."""
     chips = S["chips"]
     slot = (max(c["isz"] for c in chips) + 16 + 3) & ~3
     used = {}
@@ -202,8 +236,8 @@ def plant_extras(rng, S, n_cores=2, n_diags=1):
         name = rng.choice(["", "a", "app", "sixteen_chars_xx", "café", "my_app.aplx", "x" * 15]).encode()[:16]
         b[72:88] = name + b"\0" * (16 - len(name))
         # console buffer chain
-        ascii_only = rng.random() < 0.5
-        nblk = rng.choice([0, 1, 1, 2, 3, 5])
+        kind = "utf8" if text else rng.choice(["ascii", "ascii", "utf8", "utf8", "binary", "binary"])
+        nblk = text["nblk"] if text else rng.choice([0, 1, 1, 2, 3, 5])
         slots = used.setdefault((c["x"], c["y"]), set())
         addrs = []
         while len(addrs) < nblk + (1 if rng.random() < 0.3 else 0):      # sometimes a decoy block outside the chain
@@ -213,16 +247,32 @@ def plant_extras(rng, S, n_cores=2, n_diags=1):
                 addrs.append(SDRAM_BASE + 0x100000 + k * slot)
         chain, decoys = addrs[:nblk], addrs[nblk:]
         b[88:92] = struct.pack("<I", chain[0] if chain else 0)
+        if text:
+            lens = [isz] * len(chain) + [rng.randint(0, isz) for _ in decoys]
+            if chain and rng.random() < 0.5:
+                lens[len(chain) - 1] = rng.randint(1, isz)      # the last block of a chain is rarely full
+        else:
+            lens = [rng.choice([0, 1, isz, isz, rng.randint(0, isz)]) for _ in chain + decoys]
+        # the text of a console is what its blocks hold one after the other: the application's output is cut into
+        # blocks wherever a block happens to be full, also in the middle of a character
+        cps = gen_text(rng, sum(lens[:len(chain)]), text["style"] if text else None) if kind == "utf8" else []
+        stream = "".join(map(chr, cps)).encode("utf-8")
         for i, a in enumerate(chain + decoys):
             nxt = chain[i + 1] if i + 1 < len(chain) else 0
-            ln = rng.choice([0, 1, isz, isz, rng.randint(0, isz)])
-            if ascii_only:
+            ln = lens[i]
+            if kind == "ascii":
                 data = [rng.choice(b"abcdefghij XYZ\n\t0123456789%[]") for _ in range(isz)]
             else:
-                data = [rng.randrange(256) for _ in range(isz)]
+                data = [rng.randrange(256) for _ in range(isz)]       # (utf8: what lies behind the valid part is junk)
+            if kind == "utf8" and i < len(chain):
+                data[:ln] = stream[:ln]
+                stream = stream[ln:]
             S["blocks"].append(dict(x=c["x"], y=c["y"], addr=h32(a), next=h32(nxt), time=h32(rand_word(rng)),
                                     ms=h32(rand_word(rng)), len=ln, data=data))
-        S["vcpus"].append(dict(x=c["x"], y=c["y"], p=p, bytes=list(b), ascii=ascii_only))
+        # (statistics only: at how many block boundaries of the chain a character is cut in two)
+        starts, edges = set(itertools.accumulate(len(chr(cp).encode("utf-8")) for cp in cps)), set(itertools.accumulate(lens[:len(chain)]))
+        S["vcpus"].append(dict(x=c["x"], y=c["y"], p=p, bytes=list(b), kind=kind, text=cps,
+                               cuts=len([e for e in edges if e and e < sum(lens[:len(chain)]) and e not in starts])))
     done = set()
     for _ in range(n_diags):
         c = rng.choice(chips)
@@ -376,6 +426,14 @@ def enc_status(ps):
     return out
 
 
+def enc_text(x, y, p, t):
+    """A console read as text: the class of the object returned and the text as the sequence of its code points (TLC
+    cannot take a string apart; a bytes object travels as its bytes, anything else as nothing)."""
+    if isinstance(t, str):
+        return ["iobuf_text", x, y, p, "str", [ord(ch) for ch in t]]
+    return ["iobuf_text", x, y, p, type(t).__name__, list(t) if isinstance(t, (bytes, bytearray)) else []]
+
+
 def enc_version(ci):
     return dict(position=list(ci.position), physical_cpu=ci.physical_cpu, virt_cpu=ci.virt_cpu,
                 software_version=list(ci.software_version), buffer_size=ci.buffer_size, build_date=h32(ci.build_date),
@@ -508,8 +566,8 @@ def probe_trace(S, rng, opts):
         x, y, p = v["x"], v["y"], v["p"]
         calls.append((["status"], lambda x=x, y=y, p=p: [["status", x, y, p, enc_status(shaped(mc, rng, "get_processor_status", x, y, p))]], False))
         calls.append((["iobuf"], lambda x=x, y=y, p=p: [["iobuf", x, y, p, list(shaped(mc, rng, "get_iobuf_bytes", x, y, p))]], False))
-        if v["ascii"]:
-            calls.append((["iobuf"], lambda x=x, y=y, p=p: [["iobuf", x, y, p, list(shaped(mc, rng, "get_iobuf", x, y, p).encode("utf-8"))]], False))
+        if v["kind"] != "binary":
+            calls.append((["iobuf_text"], lambda x=x, y=y, p=p: [enc_text(x, y, p, shaped(mc, rng, "get_iobuf", x, y, p))], False))
     for d in S["diags"]:
         x, y = d["x"], d["y"]
         calls.append((["diag"], lambda x=x, y=y: [["diag", x, y, [[k, h32(v)] for k, v in
@@ -636,7 +694,7 @@ def key_of(tr, i, clauses):
 
 def strip(tr):
     t = dict(tr)
-    t["vcpus"] = [{k: v for k, v in d.items() if k != "ascii"} for d in tr["vcpus"]]
+    t["vcpus"] = [{k: v for k, v in d.items() if k not in ("kind", "text", "cuts")} for d in tr["vcpus"]]
     return t
 
 
@@ -697,12 +755,33 @@ def generate(chk, rng):
     sparse = [(40, 33, 0.02), (255, 2, 0.05), (2, 255, 0.05), (64, 48, 0.01)]
     if not chk.quick:
         sparse += [(255, 255, 0.0003), (128, 200, 0.001), (255, 255, 0.0002)]
-    jobs = [(w, h, None, "random") for (w, h) in shapes] + [(w, h, d, "sparse") for (w, h, d) in sparse]
+    jobs = [(w, h, None, "random", None) for (w, h) in shapes] + [(w, h, d, "sparse", None) for (w, h, d) in sparse]
+    # consoles that hold text outside ASCII (the documentation of get_iobuf fixes the encoding: UTF-8), every width
+    # of character, chains whose block size cuts characters in two, read through the text front end
+    jobs += [(w, h, 1.0, "text", dict(nblk=n, style=sty, isz=isz)) for (w, h, n, sty, isz) in [
+        (2, 2, 2, "mixed", 17), (1, 1, 3, "accents", 30), (2, 1, 5, "wide", 16), (1, 2, 2, "astral", 255),
+        (1, 1, 4, "astral", 1), (2, 2, 3, "emoji", 20), (1, 1, 1, "two", 64), (2, 1, 2, "two", rng.choice([1, 17, 255])),
+        (1, 1, rng.randint(2, 5), rng.choice(sorted(TEXT_STYLES)), rng.choice(ISZ_CHOICES))]]
     n_chips_probed = 0
-    for (w, h, dens, label) in jobs:
+    text_stats = dict(read=0, nonascii=0, w2=0, w3=0, w4=0, cut=0, cuts=0)
+    for (w, h, dens, label, text) in jobs:
         S = gen_state(rng, w, h, density=dens, label=label)
         big = len(S["chips"]) > 60 or w * h > 2000
-        plant_extras(rng, S, n_cores=rng.choice([0, 1, 2, 3]), n_diags=rng.choice([0, 1, 2]))
+        if text:
+            for c in S["chips"]:
+                c["isz"] = text["isz"]
+            plant_extras(rng, S, n_cores=rng.choice([2, 3]), n_diags=rng.choice([0, 1]), text=text)
+        else:
+            plant_extras(rng, S, n_cores=rng.choice([0, 1, 2, 3]), n_diags=rng.choice([0, 1, 2]))
+        for v in S["vcpus"]:
+            if v["kind"] == "utf8":
+                text_stats["read"] += 1
+                text_stats["nonascii"] += any(cp > 0x7f for cp in v["text"])
+                text_stats["w2"] += any(0x80 <= cp < 0x800 for cp in v["text"])
+                text_stats["w3"] += any(0x800 <= cp < 0x10000 for cp in v["text"])
+                text_stats["w4"] += any(cp >= 0x10000 for cp in v["text"])
+                text_stats["cut"] += v["cuts"] > 0
+                text_stats["cuts"] += v["cuts"]
         opts = dict(contains=rng.choice([0, 3, 6]), custom_resources=rng.random() < 0.2,
                     get_machine=(not big) and rng.random() < 0.3, versions=[])
         if rng.random() < 0.25:
@@ -738,6 +817,14 @@ def generate(chk, rng):
     chk.count("states with legacy version encoding", sum(1 for t in probed if t["ver"]["legacy"]))
     chk.count("console buffer chains of >= 2 blocks", sum(1 for t in probed for v in t["vcpus"]
               if sum(1 for b in t["blocks"] if (b["x"], b["y"]) == (v["x"], v["y"])) >= 2))
+    chk.count("consoles of UTF-8 text read as text (get_iobuf)", text_stats["read"])
+    chk.count("... holding characters outside ASCII", text_stats["nonascii"])
+    chk.count("... holding characters of two bytes", text_stats["w2"])
+    chk.count("... holding characters of three bytes", text_stats["w3"])
+    chk.count("... holding characters of four bytes", text_stats["w4"])
+    chk.count("... with a character cut in two by a block boundary", text_stats["cut"])
+    chk.count("block boundaries inside a character", text_stats["cuts"])
+    chk.count("consoles read as text in all (ASCII and UTF-8)", sum(1 for t in probed for e in t["ev"] if e[0] == "iobuf_text"))
     chk.count("probing calls that raised", sum(1 for t in allt for e in t["ev"] if e[0] == "raise"))
     chk.count("simulated SCP commands judged", sum(1 for t in probed for e in t["ev"] if e[0] == "scp"))
     chk.rule = ("abstract machine states: booted dimensions 1x1..12x12 in full (tall/narrow shapes across the 8-rows-per-"
@@ -748,7 +835,11 @@ def generate(chk, rng):
                 "all; chips in the P2P table that are silent or are answered for with a fatal return code; free SDRAM/SRAM over the whole 32-bit range, router blocks 0..2047, Ethernet up/down with IP and "
                 "local Ethernet chip, junk in unassigned reply bits; software version in both encodings with labels "
                 "and optional final NUL; 0-3 planted status blocks with console chains of 0-5 blocks (per-chip block "
-                "sizes 1..300, also not multiples of four, decoy blocks, text or binary) and 0-2 planted router counter sets; "
+                "sizes 1..300, also not multiples of four, decoy blocks; contents ASCII text, UTF-8 text with characters of "
+                "one to four bytes - both ends of every width, the byte-order mark, the neighbours of the surrogate gap - "
+                "cut into blocks without regard to character boundaries, or arbitrary bytes; text is read back through "
+                "get_iobuf and travels as code points, everything also as bytes through get_iobuf_bytes; 9 states of "
+                "full chains of 1-5 blocks of such text with block sizes 1..255) and 0-2 planted router counter sets; "
                 "coordinates passed by position, keyword or enclosing context block; single-chip questions; in 3 of 10 "
                 "states 1-3 chips change after the first probe and the machine is probed again through the same controller.  Outside the domain and "
                 "never generated: core-state bytes 12-14, an absent or silent root chip.  non-trivial = more than one "
@@ -781,7 +872,8 @@ def selftest(chk):
            or not any(c["eth"] for c in S["chips"]) or S["ver"]["legacy"]
            or not all(any(s != IDLE for s in c["states"]) and c["links"] and len(c["links"]) < 6 for c in S["chips"])):
         S = gen_state(rng, 3, 2, density=0.9, label="selftest")
-    while not (S["vcpus"] and S["diags"] and any(b["len"] > 0 for b in S["blocks"])):
+    while not (S["vcpus"] and S["diags"] and any(b["len"] > 0 for b in S["blocks"])
+               and any(v["kind"] == "utf8" and v["cuts"] and max(v["text"], default=0) >= 0x10000 for v in S["vcpus"])):
         S["vcpus"], S["blocks"], S["diags"] = [], [], []
         plant_extras(rng, S, n_cores=2, n_diags=1)
     c0 = S["chips"][0]
@@ -888,6 +980,27 @@ def selftest(chk):
         def corrupt_iobuf(t):
             t["ev"][iob[0]][4] = t["ev"][iob[0]][4][:-1]
         cases.append((mut(corrupt_iobuf), "IobufIsMachines"))
+    txt = [i for i, e in enumerate(good["ev"]) if e[0] == "iobuf_text" and any(cp > 0x7f for cp in e[5])][0]
+
+    def set_text(fn):
+        def f(t):
+            t["ev"][txt][5] = fn(t["ev"][txt][5])
+        return f
+
+    def as_bytes(t):
+        e = t["ev"][txt]
+        e[4], e[5] = "bytes", list("".join(map(chr, e[5])).encode("utf-8"))
+    cases += [
+        # every byte of the console taken for a character; one character of the text another one; a character
+        # dropped; a character for every half of a four-byte one; the bytes themselves instead of text
+        (mut(set_text(lambda v: list("".join(map(chr, v)).encode("utf-8")))), "IobufTextIsMachines"),
+        (mut(set_text(lambda v: [cp if cp < 0x80 else 0xfffd for cp in v])), "IobufTextIsMachines"),
+        (mut(set_text(lambda v: [cp for cp in v if cp < 0x10000])), "IobufTextIsMachines"),
+        (mut(set_text(lambda v: [h for cp in v for h in ([cp] if cp < 0x10000 else
+                                                          [0xd800 + ((cp - 0x10000) >> 10), 0xdc00 + (cp & 0x3ff)])])), "IobufTextIsMachines"),
+        (mut(as_bytes), "IobufTextIsMachines"),
+        (mut(lambda t: t["ev"].__delitem__(txt)), "AsPlanned"),
+    ]
     rej = chk.validate("ProbeTrace", "ProbeTrace.cfg", [c[0] for c in cases])
     got = {id(t): cl for t, _, cl in rej}
     msgs = []
